@@ -12,6 +12,7 @@
 package verifsimrt
 
 import (
+	"os"
 	"encoding/base64"
 	"encoding/json"
 	"errors"
@@ -482,18 +483,31 @@ type OSFile struct {
 	s *Stream
 	i *InStream
 	f *SimFile
+	w *sinkFile
 }
+
+// sinkFile is a file opened for writing (a log, say): what is written to it is recorded as
+// FWRITE events, never as output of the program.
+type sinkFile struct{ path string }
 
 func (o *OSFile) bad(op string) error {
 	return &fs.PathError{Op: op, Path: o.Name(), Err: syscall.EBADF}
 }
 func (o *OSFile) Write(p []byte) (int, error) {
+	if o.w != nil {
+		record("FWRITE", o.w.path, int64(len(p)))
+		return len(p), nil
+	}
 	if o.s == nil {
 		return 0, o.bad("write")
 	}
 	return o.s.Write(p)
 }
 func (o *OSFile) WriteString(p string) (int, error) {
+	if o.w != nil {
+		record("FWRITE", o.w.path, int64(len(p)))
+		return len(p), nil
+	}
 	if o.s == nil {
 		return 0, o.bad("write")
 	}
@@ -512,6 +526,8 @@ func (o *OSFile) Close() error { return nil }
 func (o *OSFile) Sync() error  { return nil }
 func (o *OSFile) Stat() (fs.FileInfo, error) {
 	switch {
+	case o.w != nil:
+		return simInfo{name: o.w.path}, nil
 	case o.s != nil:
 		return o.s.Stat()
 	case o.i != nil:
@@ -530,12 +546,28 @@ func (o *OSFile) Fd() uintptr {
 }
 func (o *OSFile) Name() string {
 	switch {
+	case o.w != nil:
+		return o.w.path
 	case o.s != nil:
 		return o.s.name
 	case o.i != nil:
 		return "/dev/stdin"
 	}
 	return o.f.path
+}
+
+// OpenFile / Create stand in for os.OpenFile / os.Create: read-only opens go to the simulated
+// file system, anything else yields a write sink.
+func OpenFile(path string, flag int, perm fs.FileMode) (*OSFile, error) {
+	if flag&(os.O_WRONLY|os.O_RDWR|os.O_APPEND|os.O_CREATE|os.O_TRUNC) == 0 {
+		return Open(path)
+	}
+	record("FILE", "write:"+path, 0)
+	return &OSFile{w: &sinkFile{path: path}}, nil
+}
+
+func Create(path string) (*OSFile, error) {
+	return OpenFile(path, os.O_RDWR|os.O_CREATE|os.O_TRUNC, 0o666)
 }
 
 func Open(path string) (*OSFile, error) {
